@@ -842,6 +842,33 @@ def _int_width(t):
     return _WIDTH.get(t)
 
 
+_UNSIGNED_CONV = {'toUInt': 32, 'toULongLong': 64, 'toULong': 64, 'toUShort': 16}
+
+
+def _is_signed_int(t):
+    t = (t or '').replace('const ', '').replace('&', '').strip()
+    m = re.match(r'std::optional<(.*)>$', t)
+    if m:
+        t = m.group(1).strip()
+    return t in _WIDTH and not t.startswith(('u', 'qu', 'unsigned', 'size_t', 'std::size_t'))
+
+
+def _unsigned_conversion(f, nid):
+    """width of an unsigned text->integer conversion the expression is computed from (Qt's toUInt & co, parseInt<unsigned type>), or None"""
+    for j in f.walk(nid):
+        m = f.nodes[j]
+        if m['k'] != 'call':
+            continue
+        nm = (f.sym(m) or {}).get('name')
+        if nm in _UNSIGNED_CONV and (f.cname(m) or '').startswith(('QString::', 'QStringView::', 'QByteArray::', 'QLatin1String::')):
+            return _UNSIGNED_CONV[nm]
+        if nm == 'parseInt':
+            targ = ((f.sym(m) or {}).get('targs') or '').strip('<>').split(',')[0].strip()
+            if targ in _WIDTH and not _is_signed_int(targ):
+                return _WIDTH[targ]
+    return None
+
+
 def _is_parser(prog, f):
     top = f
     while top.is_lambda and top.parent_id in prog.fns:
@@ -969,10 +996,36 @@ def _reader_shape_findings(prog, fns):
             if not wl:
                 continue
             w = _text_conversion_width(prog, f, r)
+            us = _unsigned_conversion(f, r)
+            if us is not None and _is_signed_int(l.get('t')) and wl <= us:
+                out.append(('R11', f, i, '%s#unsigned-into-signed:%s' % (top.qname, l['name']),
+                            '%s fills the signed %d-bit member %s from an unsigned %d-bit text conversion: a value in the upper half of the unsigned range is accepted, wraps to a '
+                            'negative number, is written with a minus sign and is rejected (or read as 0) by the same parser on the next pass' % (top.display()[:50], wl, l['name'], us)))
             if w is not None and w < wl:
                 out.append(('R11', f, i, '%s#narrow-conversion:%s' % (top.qname, l['name']),
                             '%s fills the %d-bit member %s from a %d-bit text conversion: a value the writer emits correctly (QString::number of the %d-bit member) that does not '
                             'fit %d bits is read back as 0' % (top.display()[:50], wl, l['name'], w, wl, w)))
+        # ... the same for a record that the reader builds positionally: element k initialises member k
+        for i, n in enumerate(f.nodes):
+            if n['k'] != 'initlist' or not n.get('elems'):
+                continue
+            rec = prog.records.get((n.get('t') or '').replace('const ', '').strip())
+            if not rec or len(rec.get('fields', [])) < len(n['elems']):
+                continue
+            for k, e in enumerate(n['elems']):
+                fl = rec['fields'][k]
+                wl = _int_width(fl.get('t'))
+                if not wl:
+                    continue
+                w = _text_conversion_width(prog, f, e)
+                us = _unsigned_conversion(f, e)
+                if us is not None and _is_signed_int(fl.get('t')) and wl <= us:
+                    out.append(('R11', f, i, '%s#unsigned-into-signed:%s' % (top.qname, fl['name']),
+                                '%s fills the signed %d-bit member %s (positional initialiser) from an unsigned %d-bit text conversion: a value in the upper half of the unsigned '
+                                'range wraps to a negative number, is written with a minus sign and is not read back' % (top.display()[:50], wl, fl['name'], us)))
+                if w is not None and w < wl:
+                    out.append(('R11', f, i, '%s#narrow-conversion:%s' % (top.qname, fl['name']),
+                                '%s fills the %d-bit member %s (positional initialiser) from a %d-bit text conversion' % (top.display()[:50], wl, fl['name'], w)))
         # R13: text read from the element is stored as it is, not normalised
         for i, n in f.calls():
             if f.cname(n) not in _NORMALISERS or n.get('obj') is None or not _from_dom_text(f, n['obj']):
